@@ -88,7 +88,7 @@ def relOps (e : Elem α) (a b : List α) : List Bool :=
 
 /-- `size()` = number of elements, `empty()` = "no elements", `full()` (fixed-capacity static_set only) = "holds `cap` elements",
     `max_size()` = the capacity -/
-def sizes (isSet : Bool) (cap : Nat) (l : List α) : Out α :=
+def sizes (isSet : Bool) (cap : Nat) (l : List α) : XOut α :=
   .sizes l.length l.isEmpty (if isSet then some (l.length == cap) else none) cap
 
 /-- documented preconditions of the operations of a history (everything else is total) -/
@@ -99,7 +99,7 @@ def valid (cap : Nat) (lt : α → α → Bool) (s : St α) : Op α κ → Bool
   | .replace c => c.length ≤ cap && c.Pairwise (fun a b => lt a b)   -- sorted, unique, fits
   | _ => true
 
-def step (isSet : Bool) (lt : α → α → Bool) (h : Het α κ) (e : Elem α) (cap : Nat) (s : St α) : Op α κ → St α × Out α
+def step (isSet : Bool) (lt : α → α → Bool) (h : Het α κ) (cap : Nat) (s : St α) : Op α κ → St α × Out α
   | .insert k => let r := insert lt cap s.cur k; ({ s with cur := r.1 }, .ins r.2)
   | .insertHint pos k => if isSet then (s, .unit) else
       let r := insertHint lt cap s.cur pos k; ({ s with cur := r.1 }, .num r.2)
@@ -114,23 +114,39 @@ def step (isSet : Bool) (lt : α → α → Bool) (h : Het α κ) (e : Elem α) 
   | .lookup w k => (s, lookupP (fun x => lt x k) (fun x => lt k x) s.cur w)
   | .hlookup w k => (s, lookupP (fun x => h.ek x k) (fun x => h.ke k x) s.cur w)
   | .riter => (s, .elems s.cur.reverse)
-  | .eraseIf p => let r := eraseIf p s.cur; ({ s with cur := r.1 }, .num r.2)
-  | .cmp => (s, .bools (relOps e s.cur s.other))
-  | .sizes => (s, sizes isSet cap s.cur)
 
-def run (isSet : Bool) (lt : α → α → Bool) (h : Het α κ) (e : Elem α) (cap : Nat) : St α → List (Op α κ) → St α × List (Out α)
+def run (isSet : Bool) (lt : α → α → Bool) (h : Het α κ) (cap : Nat) : St α → List (Op α κ) → St α × List (Out α)
   | s, [] => (s, [])
   | s, op :: ops =>
-    let r := step isSet lt h e cap s op
-    let r2 := run isSet lt h e cap r.1 ops
+    let r := step isSet lt h cap s op
+    let r2 := run isSet lt h cap r.1 ops
     (r2.1, r.2 :: r2.2)
 
 /-- every operation of the history satisfies its documented precondition in the state it meets -/
-def validRun (isSet : Bool) (lt : α → α → Bool) (h : Het α κ) (e : Elem α) (cap : Nat) : St α → List (Op α κ) → Bool
+def validRun (isSet : Bool) (lt : α → α → Bool) (h : Het α κ) (cap : Nat) : St α → List (Op α κ) → Bool
   | _, [] => true
   | s, op :: ops =>
     valid cap lt s op && (match op with | .extract | .replace _ | .insertHint _ _ => !isSet | _ => true)
-      && validRun isSet lt h e cap (step isSet lt h e cap s op).1 ops
+      && validRun isSet lt h cap (step isSet lt h cap s op).1 ops
+
+/-! #### extended histories (`XOp`): the three additions have no precondition -/
+
+def xvalid (cap : Nat) (lt : α → α → Bool) (s : St α) : XOp α κ → Bool
+  | .base op => valid cap lt s op
+  | _ => true
+
+def xstep (isSet : Bool) (lt : α → α → Bool) (h : Het α κ) (e : Elem α) (cap : Nat) (s : St α) : XOp α κ → St α × XOut α
+  | .base op => let r := step isSet lt h cap s op; (r.1, .base r.2)
+  | .eraseIf p => let r := eraseIf p s.cur; ({ s with cur := r.1 }, .base (.num r.2))
+  | .cmp => (s, .bools (relOps e s.cur s.other))
+  | .sizes => (s, sizes isSet cap s.cur)
+
+def xrun (isSet : Bool) (lt : α → α → Bool) (h : Het α κ) (e : Elem α) (cap : Nat) : St α → List (XOp α κ) → St α × List (XOut α)
+  | s, [] => (s, [])
+  | s, op :: ops =>
+    let r := xstep isSet lt h e cap s op
+    let r2 := xrun isSet lt h e cap r.1 ops
+    (r2.1, r.2 :: r2.2)
 
 /-- sorted w.r.t. the comparator and unique, as a decidable predicate: strictly ascending -/
 def sortedUnique (lt : α → α → Bool) (c : List α) : Bool := decide (c.Pairwise (fun a b => lt a b = true))
